@@ -634,7 +634,8 @@ func c02GenHdrs(r *gen.Rand, prefix string, bin bool) []c02Hdr {
 func c02GenErr(r *gen.Rand) *c02Err {
 	e := &c02Err{Code: r.Range(1, 16), Details: []int{}}
 	if r.Chance(4, 5) {
-		m := gen.Pick(r, []string{"boom", "oops: it failed", "50% done", "üñïcödé ☃", "a/b?c=d&e", "", "tab\tinside", "quote\"and'backslash\\"})
+		m := gen.Pick(r, []string{"boom", "oops: it failed", "50% done", "üñïcödé ☃", "a/b?c=d&e", "", "tab\tinside", "quote\"and'backslash\\",
+			"1+1 = 2", "a+b%2Bc%20d", "x=1&y=2#frag;z", "~!*'()", "100%25"})
 		e.Msg = &m
 	}
 	for k := r.Intn(3); k > 0; k-- {
@@ -660,6 +661,19 @@ func c02GenTC(r *gen.Rand, st string, nReq, nResp int, withErr bool, bin bool) c
 		tc.Reqs = append(tc.Reqs, 100+i*7+r.Intn(5))
 	}
 	d := c02Def{Hdrs: c02GenHdrs(r, "x-hdr", bin), Trls: c02GenHdrs(r, "x-trl", bin), Data: []string{}}
+	// a trailer may have the same name as a header (possibly in another letter case)
+	if len(d.Hdrs) > 0 && r.Chance(1, 3) {
+		h := gen.Pick(r, d.Hdrs)
+		name := h.N
+		if r.Bool() {
+			name = strings.ToUpper(name[:3]) + name[3:]
+		}
+		vals := []string{gen.Pick(r, []string{"from-trailer", "t1", "v1"})}
+		if strings.HasSuffix(strings.ToLower(name), "-bin") {
+			vals = []string{"dHJs"}
+		}
+		d.Trls = append(d.Trls, c02Hdr{N: name, V: vals})
+	}
 	switch st {
 	case "unary", "clientStream":
 		switch {
